@@ -813,8 +813,7 @@ struct elements_iterator_t : boost::multi::random_accessable<elements_iterator_t
 
 	BOOST_MULTI_HD constexpr auto operator+=(difference_type n) -> elements_iterator_t& {
 		if(xs_.num_elements() != 0) {
-			auto const nn = std::apply(xs_, ns_);
-			ns_ = xs_.from_linear(nn + n);
+			ns_ = xs_.from_linear(n_ + n);  // from the linear position: the index tuple wraps around when the end is reached by ++
 		}
 		n_ += n;
 		return *this;
@@ -846,8 +845,7 @@ struct elements_iterator_t : boost::multi::random_accessable<elements_iterator_t
 	BOOST_MULTI_HD constexpr auto operator->() const -> pointer   {return base_ + std::apply(l_, ns_) ;}
 	BOOST_MULTI_HD constexpr auto operator*()  const -> reference {return base_  [std::apply(l_, ns_)];}
 	BOOST_MULTI_HD constexpr auto operator[](difference_type const& n) const -> reference {
-		auto const nn = std::apply(xs_, ns_);
-		return base_[std::apply(l_, xs_.from_linear(nn + n))];
+		return base_[std::apply(l_, xs_.from_linear(n_ + n))];  // from the linear position: the index tuple wraps around when the end is reached by ++
 	}  // explicit here is necessary for nvcc/thrust
 
 	#if defined(__clang__)
